@@ -63,10 +63,13 @@ impl<'a> SimdOp for MaxNum<'a, f32> {
     fn eval<I: Isa>(self, isa: I) -> Self::Output {
         let ops = isa.f32();
 
+        // Once the running maximum is NaN, it stays NaN.
         let max_num = |max, x| {
             let not_nan = ops.eq(x, x);
+            let max_not_nan = ops.eq(max, max);
             let new_max = ops.max(max, x);
-            ops.select(new_max, x, not_nan)
+            let new_max = ops.select(new_max, x, not_nan);
+            ops.select(new_max, max, max_not_nan)
         };
 
         let vec_max = self.input.simd_iter(ops).fold_unroll::<2>(
@@ -113,10 +116,13 @@ impl<'a> SimdOp for MinNum<'a, f32> {
     fn eval<I: Isa>(self, isa: I) -> Self::Output {
         let ops = isa.f32();
 
+        // Once the running minimum is NaN, it stays NaN.
         let min_num = |min, x| {
             let not_nan = ops.eq(x, x);
+            let min_not_nan = ops.eq(min, min);
             let new_min = ops.min(min, x);
-            ops.select(new_min, x, not_nan)
+            let new_min = ops.select(new_min, x, not_nan);
+            ops.select(new_min, min, min_not_nan)
         };
 
         let vec_min = self
